@@ -1,14 +1,15 @@
 SPECIFICATION Spec
 CONSTANTS
-  Alphabet = {"lo", "up", "dg", "us", "st", "sp", "dd", "sl", "dq", "sq", "bt", "bs", "nl", "nu", "d2", "d3", "nd", "no", "ns", "iv"}
+  Alphabet = {"lo", "up", "dg", "us", "st", "sp", "dd", "sl", "dq", "sq", "bt", "bs", "nl", "nu", "d2", "d3", "nd", "no", "ns", "iv", "l4", "u4", "n4", "s4"}
   MaxLen = 2
   MinLen = 0
-  Shapes = {"flat", "obj", "multi"}
+  Shapes = {"flat", "multi", "obj", "objmulti", "tags", "tagsmulti", "nested", "nestedmulti"}
   LimMode = "all"
-  Firsts = {"lo", "up", "dg", "us", "st", "sp", "dd", "sl", "dq", "sq", "bt", "bs", "nl", "nu", "d2", "d3", "nd", "no", "ns", "iv"}
+  Firsts = {"lo", "up", "dg", "us", "st", "sp", "dd", "sl", "dq", "sq", "bt", "bs", "nl", "nu", "d2", "d3", "nd", "no", "ns", "iv", "l4", "u4", "n4", "s4"}
   Sample = FALSE
 INVARIANT OwnContentFindsIt
 INVARIANT NoUnproducibleToken
 INVARIANT RenderLexRoundTrip
 INVARIANT LowerShortcutSound
-INVARIANT DeviationIsExact
+INVARIANT NoCutRune
+INVARIANT CutIgnoresIvKind
